@@ -159,3 +159,12 @@ package errbase
 //@ spec func regStep(r map[TypeKey]TypeKey, pk TypeKey, nk TypeKey) map[TypeKey]TypeKey
 //@ axiom regStep_has: forall r map[TypeKey]TypeKey, pk TypeKey, nk TypeKey, x TypeKey :: {regStep(r, pk, nk).has(x)} regStep(r, pk, nk).has(x) == (r.has(x) || x == nk)
 //@ axiom regStep_get: forall r map[TypeKey]TypeKey, pk TypeKey, nk TypeKey, x TypeKey :: {regStep(r, pk, nk)[x]} regStep(r, pk, nk)[x] == (x == nk ? resolveKey(r, pk) : (r[x] == nk ? resolveKey(r, pk) : r[x]))
+
+//@ spec func rootOf(e error) error
+//@ unfold rootOf(e) = cause1(e) != nil ? rootOf(cause1(e)) : e
+
+//@ func UnwrapAll
+//@   props C07 C10 C14
+//@   ensures result == rootOf(err)
+//@   ensures err == nil ==> result == nil
+//@   loop 1: invariant rootOf(err) == rootOf(old(err)) && (old(err) == nil ==> err == nil)
